@@ -48,14 +48,14 @@ type vPodInformer struct {
 }
 
 func (p *vPodInformer) Informer() cache.SharedIndexInformer { return p.inf }
-func (p *vPodInformer) Lister() corelisters.PodLister        { return &vPodLister{w: p.w} }
+func (p *vPodInformer) Lister() corelisters.PodLister       { return &vPodLister{w: p.w} }
 
 type vSetInformer struct {
 	inf *vHInformer
 	w   *vWorld
 }
 
-func (p *vSetInformer) Informer() cache.SharedIndexInformer    { return p.inf }
+func (p *vSetInformer) Informer() cache.SharedIndexInformer   { return p.inf }
 func (p *vSetInformer) Lister() appslisters.StatefulSetLister { return p.w.setLister() }
 
 type vPVCInformer struct {
@@ -70,15 +70,15 @@ func (p *vPVCInformer) Lister() corelisters.PersistentVolumeClaimLister {
 
 type vRevInformer struct{ inf *vHInformer }
 
-func (p *vRevInformer) Informer() cache.SharedIndexInformer                { return p.inf }
+func (p *vRevInformer) Informer() cache.SharedIndexInformer              { return p.inf }
 func (p *vRevInformer) Lister() kubeappslisters.ControllerRevisionLister { return nil }
 
 // vWired: the controller as its constructor builds it, plus the handlers it registered.
 type vWired struct {
-	ssc          *StatefulSetController
-	pods, sets   *vHInformer
-	pvcs, revs   *vHInformer
-	q            *vQueue
+	ssc        *StatefulSetController
+	pods, sets *vHInformer
+	pvcs, revs *vHInformer
+	q          *vQueue
 }
 
 func vNewWiredController(w *vWorld) *vWired {
